@@ -445,7 +445,9 @@ def bigsum(seq_key, length, body):
             out = out + fac * length
         else:
             depnum = Num({dep: Fraction(1)})
-            out = out + fac * Num.of_atom(Atom("app", "BigSum", (seq_key, depnum), sort="Real"))
+            length_n = length if isinstance(length, Num) else Num.const(length)
+            # identity of a big sum = (index range, summand); the name of the sequence it came from is irrelevant
+            out = out + fac * Num.of_atom(Atom("app", "BigSum", ("", depnum, length_n), sort="Real"))
     return out
 
 
@@ -516,7 +518,7 @@ def atom_to_z3(a, cache):
             r = z3.ToReal(r)
     elif a.kind == "app":
         if a.name == "BigSum":
-            r = z3.Real("BigSum[%s|%s]" % (a.args[0], a.args[1].key()))
+            r = z3.Real("BigSum[%s|%s|%s]" % (a.args[0], a.args[1].key(), a.args[2].key()))
         else:
             zargs = []
             for arg in a.args:
